@@ -6,15 +6,28 @@ import BufProofs.Lemmas.DigestLemmas
   `H : Bytes → Digest` (SHAKE256) is a parameter everywhere.  Purity theorems hold for every H;
   the sensitivity theorem carries the explicit hypothesis that H does not collide on the byte
   strings that the two computations being compared actually hash (`NoCollision`).
+
+  Line feeds: since the `fix:` that makes `bufcas.NewFileNode` reject a path containing U+000A
+  (handoff/C08-newline-fix.diff) "no path contains a line feed" is no longer a hypothesis of
+  the round-trip and sensitivity theorems — it follows from the nodes having been accepted by
+  `newFileNode`, resp. from the digest computation having succeeded (`digest_ok_newline_free`).
+  The pre-fix behaviour (`newFileNodeOld`, `Old.moduleB5`) survives only in the two recorded
+  `…_counterexample` theorems.
 -/
 namespace BufProofs.C08
 open BufModel.Path BufModel.Manifest BufModel.Digest
 
-/-- What a `bufcas.Manifest` is by construction (unique paths, each accepted by `NewFileNode`),
-    plus the one hypothesis the line format forces: no path contains U+000A. -/
+/-- What a `bufcas.Manifest` is by construction: unique paths, every node accepted by
+    `NewFileNode`.  Nothing else — that no path contains U+000A now FOLLOWS (`WF.no_newline`). -/
 def WF (nodes : List FileNode) : Prop :=
-  (nodes.map (·.path)).Nodup ∧ (∀ n ∈ nodes, validateNodePath n.path = .ok ()) ∧
-    ∀ n ∈ nodes, '\n' ∉ n.path
+  (nodes.map (·.path)).Nodup ∧ ∀ n ∈ nodes, newFileNode n.path n.digest = .ok n
+
+theorem WF.valid {nodes : List FileNode} (h : WF nodes) : ∀ n ∈ nodes, validateNodePath n.path = .ok () :=
+  fun n hn => (newFileNode_eq_ok (h.2 n hn)).1
+
+/-- a node accepted by the repaired `NewFileNode` has no line feed in its path -/
+theorem WF.no_newline {nodes : List FileNode} (h : WF nodes) : ∀ n ∈ nodes, '\n' ∉ n.path :=
+  fun n hn => validateNodePath_no_newline (h.valid n hn)
 
 /-- The regenerated constants are the ones the hand-written part of the model assumes
     (digest type name of bufcas, digest length, shape of getStorageMatcher and of the
@@ -29,14 +42,15 @@ theorem consts_match_model :
   ⟨by decide, by decide, rfl, rfl⟩
 
 /-- Canonical manifest text parses back to an equal manifest: for every set of file nodes with
-    unique, validated, newline-free paths (double spaces, unicode, anything else allowed),
-    `NewManifest` succeeds and `ParseManifest(m.String())` returns exactly `m`. -/
+    unique paths, each accepted by `NewFileNode` (double spaces, unicode, anything else allowed;
+    no separate line-feed hypothesis), `NewManifest` succeeds and `ParseManifest(m.String())`
+    returns exactly `m`. -/
 theorem manifest_roundtrip (nodes : List FileNode) (h : WF nodes) :
     ∃ m, newManifest nodes = .ok m ∧ m.Perm nodes ∧ parseManifest (manifestString m) = .ok m := by
   refine ⟨sortBy pathLe nodes, newManifest_of_nodup nodes h.1, sortBy_perm pathLe nodes, ?_⟩
   have hp := sortBy_perm pathLe nodes
   exact parseManifest_manifestString _ (sortBy_canonical nodes h.1)
-    (fun n hn => h.2.1 n (hp.subset hn)) (fun n hn => h.2.2 n (hp.subset hn))
+    (fun n hn => h.valid n (hp.subset hn))
 
 /-- The canonical text determines the manifest: two well-formed node sets with the same
     manifest text are the same set of (path, digest) pairs. -/
@@ -49,8 +63,7 @@ theorem manifestString_injective (n₁ n₂ : List FileNode) (h1 : WF n₁) (h2 
   have p2 := sortBy_perm pathLe n₂
   subst s1; subst s2
   have := manifestString_inj (sortBy_canonical n₁ h1.1) (sortBy_canonical n₂ h2.1)
-    (fun n hn => h1.2.1 n (p1.subset hn)) (fun n hn => h2.2.1 n (p2.subset hn))
-    (fun n hn => h1.2.2 n (p1.subset hn)) (fun n hn => h2.2.2 n (p2.subset hn)) h
+    (fun n hn => h1.valid n (p1.subset hn)) (fun n hn => h2.valid n (p2.subset hn)) h
   exact ⟨this, p1.symm.trans (this ▸ p2)⟩
 
 /-- PURITY.  The b5 digest of a module is a function of the SET of its module files
@@ -58,16 +71,22 @@ theorem manifestString_injective (n₁ n₂ : List FileNode) (h1 : WF n₁) (h2 
     its dependency digests: two buckets that agree on their module files — whatever the
     backend, whatever order their walk enumerates (a bucket here IS a walk order), whatever
     other files they hold — have the same digest (or fail identically).  Module name, commit,
-    bucket ID and targeting are not inputs of `moduleB5` at all. -/
+    bucket ID and targeting are not inputs of `moduleB5` at all.  "Fail identically" includes
+    the repaired line-feed case: when a module-file path contains U+000A both computations
+    return `pathLineFeed` (non-module files with a line feed are irrelevant). -/
 theorem digest_is_function_of_module_files (H : Bytes → Digest) (b₁ b₂ : Bucket) (deps : List MDigest)
     (h1 : BucketOK b₁) (h2 : BucketOK b₂)
     (hsame : ∀ e, e ∈ filterModule b₁ ↔ e ∈ filterModule b₂) :
     moduleB5 H b₁ deps = moduleB5 H b₂ deps := by
-  cases hd : deps.all (fun d => d.type = .b5) with
-  | false => rw [moduleB5_err H b₁ deps h1 hd, moduleB5_err H b₂ deps h2 hd]
-  | true =>
-    rw [moduleB5_eq H b₁ deps h1 hd, moduleB5_eq H b₂ deps h2 hd,
-      moduleManifest_congr H b₁ b₂ h1 h2 hsame]
+  by_cases n1 : NoNewline (filterModule b₁)
+  · have n2 : NoNewline (filterModule b₂) := fun e he => n1 e ((hsame e).mpr he)
+    cases hd : deps.all (fun d => d.type = .b5) with
+    | false => rw [moduleB5_err H b₁ deps h1 n1 hd, moduleB5_err H b₂ deps h2 n2 hd]
+    | true =>
+      rw [moduleB5_eq H b₁ deps h1 n1 hd, moduleB5_eq H b₂ deps h2 n2 hd,
+        moduleManifest_congr H b₁ b₂ h1 h2 hsame]
+  · have n2 : ¬ NoNewline (filterModule b₂) := fun n2 => n1 (fun e he => n2 e ((hsame e).mp he))
+    rw [moduleB5_newline_err H b₁ deps h1 n1, moduleB5_newline_err H b₂ deps h2 n2]
 
 /-- Enumeration order: ANY permutation of the walk gives the same digest. -/
 theorem digest_walk_order (H : Bytes → Digest) (b₁ b₂ : Bucket) (deps : List MDigest)
@@ -105,13 +124,11 @@ theorem digest_perm_deps (H : Bytes → Digest) (b : Bucket) (d₁ d₂ : List M
 def NoCollision (H : Bytes → Digest) (S : List Bytes) : Prop :=
   ∀ x ∈ S, ∀ y ∈ S, H x = H y → x = y
 
-/-- SENSITIVITY (the statement with the weakest newline hypothesis: only the MODULE files' paths
-    must be free of U+000A — non-module files never reach the manifest).  If H does not collide on
-    the byte strings the two computations hash (module
-    file contents, the two manifest texts, the two final preimages), equal b5 digests force
-    equal module-file sets and equal dependency-digest multisets.  Contrapositive: any change
-    of a byte or of a path of a module file, any added or removed module file, any changed,
-    added or removed dependency digest changes the digest. -/
+/-- Core of the sensitivity argument, in the closed-form vocabulary (`NoNewline` on the module
+    files and "all deps b5" as explicit hypotheses, so that `moduleB5` has its closed form on both
+    sides).  The property-level statement is `digest_sensitive` below, which DERIVES these two
+    hypotheses from the computations having succeeded; this form is what the module-set
+    theorems use (`SetOK` carries them). -/
 theorem digest_sensitive_module_files (H : Bytes → Digest) (b₁ b₂ : Bucket) (d₁ d₂ : List MDigest)
     (h1 : BucketOK b₁) (h2 : BucketOK b₂) (n1 : NoNewline (filterModule b₁)) (n2 : NoNewline (filterModule b₂))
     (hd1 : d₁.all (fun d => d.type = .b5) = true) (hd2 : d₂.all (fun d => d.type = .b5) = true)
@@ -122,9 +139,9 @@ theorem digest_sensitive_module_files (H : Bytes → Digest) (b₁ b₂ : Bucket
   have f2 := h2.filter
   -- the hashed inputs, in closed form
   have ft1 : b5FinalText H (filterModule b₁) d₁ = [b5Preimage (H (utf8 (manifestString (moduleManifest H b₁)))) (sortBy strLe (d₁.map mdigestString))] := by
-    unfold b5FinalText; rw [filesDigest_eq H b₁ h1, depStrings_eq, if_pos hd1]
+    unfold b5FinalText; rw [filesDigest_eq H b₁ h1 n1, depStrings_eq, if_pos hd1]
   have ft2 : b5FinalText H (filterModule b₂) d₂ = [b5Preimage (H (utf8 (manifestString (moduleManifest H b₂)))) (sortBy strLe (d₂.map mdigestString))] := by
-    unfold b5FinalText; rw [filesDigest_eq H b₂ h2, depStrings_eq, if_pos hd2]
+    unfold b5FinalText; rw [filesDigest_eq H b₂ h2 n2, depStrings_eq, if_pos hd2]
   have in1 : ∀ x, x ∈ b5Inputs H b₁ d₁ → x ∈ b5Inputs H b₁ d₁ ++ b5Inputs H b₂ d₂ := fun x hx => List.mem_append_left _ hx
   have in2 : ∀ x, x ∈ b5Inputs H b₂ d₂ → x ∈ b5Inputs H b₁ d₁ ++ b5Inputs H b₂ d₂ := fun x hx => List.mem_append_right _ hx
   have mC1 : ∀ e ∈ filterModule b₁, e.2 ∈ b5Inputs H b₁ d₁ := by
@@ -134,15 +151,15 @@ theorem digest_sensitive_module_files (H : Bytes → Digest) (b₁ b₂ : Bucket
     intro e he; unfold b5Inputs; rw [filterModule_idem]
     exact List.mem_append_left _ (List.mem_append_left _ (List.mem_map.mpr ⟨e, he, rfl⟩))
   have mT1 : utf8 (manifestString (moduleManifest H b₁)) ∈ b5Inputs H b₁ d₁ := by
-    unfold b5Inputs; rw [manifestText_eq H b₁ h1]; simp
+    unfold b5Inputs; rw [manifestText_eq H b₁ h1 n1]; simp
   have mT2 : utf8 (manifestString (moduleManifest H b₂)) ∈ b5Inputs H b₂ d₂ := by
-    unfold b5Inputs; rw [manifestText_eq H b₂ h2]; simp
+    unfold b5Inputs; rw [manifestText_eq H b₂ h2 n2]; simp
   have mP1 : utf8 (b5Preimage (H (utf8 (manifestString (moduleManifest H b₁)))) (sortBy strLe (d₁.map mdigestString))) ∈ b5Inputs H b₁ d₁ := by
     unfold b5Inputs; rw [ft1]; simp
   have mP2 : utf8 (b5Preimage (H (utf8 (manifestString (moduleManifest H b₂)))) (sortBy strLe (d₂.map mdigestString))) ∈ b5Inputs H b₂ d₂ := by
     unfold b5Inputs; rw [ft2]; simp
   -- step 1: the final preimages are equal
-  rw [moduleB5_eq H b₁ d₁ h1 hd1, moduleB5_eq H b₂ d₂ h2 hd2] at heq
+  rw [moduleB5_eq H b₁ d₁ h1 n1 hd1, moduleB5_eq H b₂ d₂ h2 n2 hd2] at heq
   have hHeq := congrArg MDigest.digest (Except.ok.inj heq)
   have hpre := utf8_inj (hH _ (in1 _ mP1) _ (in2 _ mP2) hHeq)
   -- step 2: split the preimage at the newlines
@@ -167,17 +184,16 @@ theorem digest_sensitive_module_files (H : Bytes → Digest) (b₁ b₂ : Bucket
   have pm1 := sortBy_perm pathLe (nodesOf H (filterModule b₁))
   have pm2 := sortBy_perm pathLe (nodesOf H (filterModule b₂))
   have nodeProps : ∀ (b : Bucket), BucketOK (filterModule b) → NoNewline (filterModule b) →
-      ∀ n ∈ sortBy pathLe (nodesOf H (filterModule b)), validateNodePath n.path = .ok () ∧ '\n' ∉ n.path := by
+      ∀ n ∈ sortBy pathLe (nodesOf H (filterModule b)), validateNodePath n.path = .ok () := by
     intro b fb nb n hn
     have hn' := (sortBy_perm pathLe _).subset hn
     rcases List.mem_map.mp hn' with ⟨e, he, rfl⟩
-    exact ⟨fb.2 e he, nb e he⟩
+    exact nodePaths_ok fb.2 nb e he
   have hman : moduleManifest H b₁ = moduleManifest H b₂ :=
     manifestString_inj
       (sortBy_canonical _ (by rw [nodesOf_paths]; exact f1.1))
       (sortBy_canonical _ (by rw [nodesOf_paths]; exact f2.1))
-      (fun n hn => (nodeProps b₁ f1 n1 n hn).1) (fun n hn => (nodeProps b₂ f2 n2 n hn).1)
-      (fun n hn => (nodeProps b₁ f1 n1 n hn).2) (fun n hn => (nodeProps b₂ f2 n2 n hn).2) htext
+      (fun n hn => nodeProps b₁ f1 n1 n hn) (fun n hn => nodeProps b₂ f2 n2 n hn) htext
   have hnodes : (nodesOf H (filterModule b₁)).Perm (nodesOf H (filterModule b₂)) := by
     have : sortBy pathLe (nodesOf H (filterModule b₁)) = sortBy pathLe (nodesOf H (filterModule b₂)) := hman
     exact pm1.symm.trans (this ▸ pm2)
@@ -200,31 +216,91 @@ theorem digest_sensitive_module_files (H : Bytes → Digest) (b₁ b₂ : Bucket
       (sortBy_perm strLe _).symm.trans (hdeps ▸ sortBy_perm strLe _)
     exact perm_of_map_perm mdigestString (fun a b => mdigestString_inj) d₁ d₂ hp
 
-/-- `digest_sensitive_module_files` with the newline hypothesis on the whole bucket (the form C09
-    uses). -/
-theorem digest_sensitive (H : Bytes → Digest) (b₁ b₂ : Bucket) (d₁ d₂ : List MDigest)
-    (h1 : BucketOK b₁) (h2 : BucketOK b₂) (n1 : NoNewline b₁) (n2 : NoNewline b₂)
-    (hd1 : d₁.all (fun d => d.type = .b5) = true) (hd2 : d₂.all (fun d => d.type = .b5) = true)
-    (hH : NoCollision H (b5Inputs H b₁ d₁ ++ b5Inputs H b₂ d₂))
-    (heq : moduleB5 H b₁ d₁ = moduleB5 H b₂ d₂) :
-    (∀ e, e ∈ filterModule b₁ ↔ e ∈ filterModule b₂) ∧ d₁.Perm d₂ :=
-  digest_sensitive_module_files H b₁ b₂ d₁ d₂ h1 h2 n1.filter n2.filter hd1 hd2 hH heq
+/-- A SUCCESSFUL digest computation covers only line-feed-free module-file paths and b5
+    dependency digests: `Module.Digest(b5)` builds one `NewFileNode` per module file, and the
+    repaired `NewFileNode` rejects U+000A.  No hypothesis on the bucket at all. -/
+theorem digest_ok_newline_free (H : Bytes → Digest) (b : Bucket) (deps : List MDigest) (g : MDigest)
+    (h : moduleB5 H b deps = .ok g) :
+    NoNewline (filterModule b) ∧ (∀ e ∈ filterModule b, newFileNode e.1 (H e.2) = .ok ⟨e.1, H e.2⟩) ∧
+      deps.all (fun d => d.type = .b5) = true :=
+  ⟨moduleB5_ok_noNewline h, fun e he => newFileNode_ok _ (moduleB5_ok_paths h e he), moduleB5_ok_deps_b5 h⟩
 
-/-- Same statement, contrapositive reading used in the property text: different module-file
-    sets or different dependency-digest multisets give different digests. -/
-theorem digest_changes (H : Bytes → Digest) (b₁ b₂ : Bucket) (d₁ d₂ : List MDigest)
-    (h1 : BucketOK b₁) (h2 : BucketOK b₂) (n1 : NoNewline b₁) (n2 : NoNewline b₂)
-    (hd1 : d₁.all (fun d => d.type = .b5) = true) (hd2 : d₂.all (fun d => d.type = .b5) = true)
+/-- THE REPAIRED BEHAVIOUR, digest level: on a real bucket, a module file whose path contains
+    U+000A makes `Module.Digest(b5)` fail with the line-feed error, for every dependency list
+    and every walk order — never a digest.  (A line feed in a NON-module file's path is
+    harmless: `digest_ignores_non_module_files`.) -/
+theorem digest_rejects_line_feed (H : Bytes → Digest) (b : Bucket) (deps : List MDigest) (h : BucketOK b)
+    (e : Entry) (he : e ∈ filterModule b) (hnl : '\n' ∈ e.1) :
+    moduleB5 H b deps = .error .pathLineFeed :=
+  moduleB5_newline_err H b deps h (fun hn => hn e he hnl)
+
+/-- …and node level: a path the old `NewFileNode` accepted is accepted by the repaired one iff it
+    contains no line feed; with a line feed the result is the line-feed error. -/
+theorem newFileNode_rejects_line_feed (p : Str) (d : Digest) (hold : newFileNodeOld p d = .ok ⟨p, d⟩) :
+    newFileNode p d = if '\n' ∈ p then .error .pathLineFeed else .ok ⟨p, d⟩ := by
+  have hv : validateNodePathOld p = .ok () := by
+    unfold newFileNodeOld at hold
+    cases h : validateNodePathOld p with
+    | error e => rw [h] at hold; cases hold
+    | ok u => rfl
+  unfold newFileNode
+  rw [validateNodePath_of_old hv]
+  by_cases hn : '\n' ∈ p
+  · simp [hn]
+  · simp [hn]
+
+/-- The fix changes nothing else: whenever no module-file path contains a line feed, the
+    repaired computation returns exactly what the pre-fix computation returned (same digest or
+    same error). -/
+theorem fix_only_affects_line_feed_paths (H : Bytes → Digest) (b : Bucket) (deps : List MDigest)
+    (hn : NoNewline (filterModule b)) : moduleB5 H b deps = Old.moduleB5 H b deps :=
+  (oldModuleB5_eq H b deps hn).symm
+
+/-- SENSITIVITY.  Two SUCCESSFUL b5 computations on real buckets with the same digest, H not
+    colliding on the byte strings the two computations hash (module file contents, the two
+    manifest texts, the two final preimages): then the module-file sets are equal and the
+    dependency-digest multisets are permutations of each other.  Contrapositive
+    (`digest_changes`): any change of a byte or of a path of a module file, any added or removed
+    module file, any changed, added or removed dependency digest changes the digest.
+    There is NO line-feed hypothesis and no "deps are b5" hypothesis: both follow from success
+    (`digest_ok_newline_free`).  Before the fix the line-feed hypothesis was indispensable
+    (`newline_collision_counterexample`). -/
+theorem digest_sensitive (H : Bytes → Digest) (b₁ b₂ : Bucket) (d₁ d₂ : List MDigest)
+    (h1 : BucketOK b₁) (h2 : BucketOK b₂)
     (hH : NoCollision H (b5Inputs H b₁ d₁ ++ b5Inputs H b₂ d₂))
+    (g : MDigest) (e1 : moduleB5 H b₁ d₁ = .ok g) (e2 : moduleB5 H b₂ d₂ = .ok g) :
+    (∀ e, e ∈ filterModule b₁ ↔ e ∈ filterModule b₂) ∧ d₁.Perm d₂ :=
+  digest_sensitive_module_files H b₁ b₂ d₁ d₂ h1 h2 (moduleB5_ok_noNewline e1) (moduleB5_ok_noNewline e2)
+    (moduleB5_ok_deps_b5 e1) (moduleB5_ok_deps_b5 e2) hH (e1.trans e2.symm)
+
+/-- Same statement, contrapositive reading used in the property text: two successful
+    computations over different module-file sets or different dependency-digest multisets give
+    different digests. -/
+theorem digest_changes (H : Bytes → Digest) (b₁ b₂ : Bucket) (d₁ d₂ : List MDigest)
+    (h1 : BucketOK b₁) (h2 : BucketOK b₂)
+    (hH : NoCollision H (b5Inputs H b₁ d₁ ++ b5Inputs H b₂ d₂))
+    (g₁ g₂ : MDigest) (e1 : moduleB5 H b₁ d₁ = .ok g₁) (e2 : moduleB5 H b₂ d₂ = .ok g₂)
     (hdiff : (∃ e, ¬ (e ∈ filterModule b₁ ↔ e ∈ filterModule b₂)) ∨ ¬ d₁.Perm d₂) :
-    moduleB5 H b₁ d₁ ≠ moduleB5 H b₂ d₂ := by
-  intro heq
-  have := digest_sensitive H b₁ b₂ d₁ d₂ h1 h2 n1 n2 hd1 hd2 hH heq
+    g₁ ≠ g₂ := by
+  intro hg
+  subst hg
+  have := digest_sensitive H b₁ b₂ d₁ d₂ h1 h2 hH g₁ e1 e2
   rcases hdiff with ⟨e, he⟩ | hp
   · exact he (this.1 e)
   · exact hp this.2
 
-/-- `digest_changes` with the newline hypothesis on the module files only. -/
+/-- The general form, failures included: on real buckets, if the two results are EQUAL and one of
+    them is a digest, the conclusion of `digest_sensitive` holds; i.e. a digest is never equal to
+    the result for a different module-file set / dependency multiset, whether that result is a
+    digest or an error. -/
+theorem digest_sensitive_of_eq (H : Bytes → Digest) (b₁ b₂ : Bucket) (d₁ d₂ : List MDigest)
+    (h1 : BucketOK b₁) (h2 : BucketOK b₂)
+    (hH : NoCollision H (b5Inputs H b₁ d₁ ++ b5Inputs H b₂ d₂))
+    (g : MDigest) (e1 : moduleB5 H b₁ d₁ = .ok g) (heq : moduleB5 H b₁ d₁ = moduleB5 H b₂ d₂) :
+    (∀ e, e ∈ filterModule b₁ ↔ e ∈ filterModule b₂) ∧ d₁.Perm d₂ :=
+  digest_sensitive H b₁ b₂ d₁ d₂ h1 h2 hH g e1 (heq ▸ e1)
+
+/-- `digest_changes` in the closed-form vocabulary (used by the module-set theorems). -/
 theorem digest_changes_module_files (H : Bytes → Digest) (b₁ b₂ : Bucket) (d₁ d₂ : List MDigest)
     (h1 : BucketOK b₁) (h2 : BucketOK b₂) (n1 : NoNewline (filterModule b₁)) (n2 : NoNewline (filterModule b₂))
     (hd1 : d₁.all (fun d => d.type = .b5) = true) (hd2 : d₂.all (fun d => d.type = .b5) = true)
@@ -354,13 +430,20 @@ theorem NoCollision.mono {H : Bytes → Digest} {S T : List Bytes} (h : NoCollis
 
 /-- The changed module itself: replacing the bucket of local module `k` by one with a different
     module-file set changes the digest of `k` (its dependencies cannot depend on it, so their
-    digests stay the same). -/
+    digests stay the same).  The new bucket is ANY real bucket: when one of its module-file paths
+    contains U+000A the result changes from a digest to the line-feed error. -/
 theorem moduleSet_changed_module (H : Bytes → Digest) (ms : List Mod) (k : Nat) (mk : Mod) (b' : Bucket)
     (hk : ms[k]? = some mk) (hkl : mk.isLocal = true) (h1 : SetOK ms)
-    (hb : BucketOK b') (hn : NoNewline (filterModule b'))
+    (hb : BucketOK b')
     (hdiff : ∃ e, ¬ (e ∈ filterModule mk.bucket ↔ e ∈ filterModule b'))
     (hH : NoCollision H (inputsAt H ms k ++ inputsAt H (withBucket ms k mk b') k)) :
     dg H ms k ≠ dg H (withBucket ms k mk b') k := by
+  by_cases hn : NoNewline (filterModule b')
+  case neg =>
+    obtain ⟨e, he⟩ := (dg_newline_err H (withBucket ms k mk b') (withBucket_topo k mk b' hk h1.topo) k _
+      (withBucket_get_self ms k mk b' hk) hb hn).1
+    rw [(dg_eq_val H ms h1 k mk hk).1, he]
+    intro hc; cases hc
   have h2 := h1.withBucket k mk b' hk hb hn
   have hk' := withBucket_get_self ms k mk b' hk
   obtain ⟨e1, a1⟩ := dg_eq_moduleB5 H ms h1 k mk hk
@@ -389,7 +472,9 @@ theorem moduleSet_changed_module (H : Bytes → Digest) (ms : List Mod) (k : Nat
 
 /-- MODULE-SET SENSITIVITY.  In a module set as buf builds it (`SetOK`: acyclic, dependency
     lists transitively closed and duplicate-free, well-formed buckets), changing the module-file
-    set of a local module `k` changes the digest of EVERY local module `i` that depends on it —
+    set of a local module `k` — to that of ANY real bucket; if a module-file path of the new bucket
+    contains U+000A the dependants lose their digest altogether (`dg_newline_err`) —
+    changes the digest of EVERY local module `i` that depends on it —
     directly or transitively: `ModuleDeps()` lists transitive dependencies, so `k ∈ deps i` —
     provided H does not collide on the byte strings hashed along the way (the digest
     computations of `i` and of its dependencies, before and after the change).  The digests of
@@ -398,17 +483,23 @@ theorem moduleSet_changed_module (H : Bytes → Digest) (ms : List Mod) (k : Nat
     same. -/
 theorem moduleSet_sensitive (H : Bytes → Digest) (ms : List Mod) (k : Nat) (mk : Mod) (b' : Bucket)
     (hk : ms[k]? = some mk) (hkl : mk.isLocal = true) (h1 : SetOK ms)
-    (hb : BucketOK b') (hn : NoNewline (filterModule b'))
+    (hb : BucketOK b')
     (hdiff : ∃ e, ¬ (e ∈ filterModule mk.bucket ↔ e ∈ filterModule b'))
     (i : Nat) (mi : Mod) (hi : ms[i]? = some mi) (hil : mi.isLocal = true) (hik : k ∈ mi.deps)
     (hH : NoCollision H ((i :: mi.deps).flatMap (inputsAt H ms) ++
       (i :: mi.deps).flatMap (inputsAt H (withBucket ms k mk b')))) :
     dg H ms i ≠ dg H (withBucket ms k mk b') i := by
-  have h2 := h1.withBucket k mk b' hk hb hn
   have hki : k < i := h1.topo i mi hi hil k hik
   have hilen : i < ms.length := (List.getElem?_eq_some_iff.mp hi).1
   have hi' : (withBucket ms k mk b')[i]? = some mi := by
     rw [withBucket_get_ne ms k mk b' (by omega)]; exact hi
+  by_cases hn : NoNewline (filterModule b')
+  case neg =>
+    obtain ⟨e, he⟩ := (dg_newline_err H (withBucket ms k mk b') (withBucket_topo k mk b' hk h1.topo) k _
+      (withBucket_get_self ms k mk b' hk) hb hn).2 i mi hi' hil hik
+    rw [(dg_eq_val H ms h1 i mi hi).1, he]
+    intro hc; cases hc
+  have h2 := h1.withBucket k mk b' hk hb hn
   have hk' := withBucket_get_self ms k mk b' hk
   -- membership of the hashed inputs in the no-collision list
   have inA : ∀ a ∈ i :: mi.deps, ∀ x ∈ inputsAt H ms a, x ∈ (i :: mi.deps).flatMap (inputsAt H ms) ++
@@ -420,7 +511,7 @@ theorem moduleSet_sensitive (H : Bytes → Digest) (ms : List Mod) (k : Nat) (mk
   have kmem : k ∈ i :: mi.deps := List.mem_cons_of_mem _ hik
   -- the changed module
   have hbase : dg H ms k ≠ dg H (withBucket ms k mk b') k :=
-    moduleSet_changed_module H ms k mk b' hk hkl h1 hb hn hdiff (hH.mono (by
+    moduleSet_changed_module H ms k mk b' hk hkl h1 hb hdiff (hH.mono (by
       intro x hx
       rcases List.mem_append.mp hx with hx | hx
       · exact inA k kmem x hx
@@ -516,7 +607,13 @@ theorem b4_is_function_of_module_files (H : Bytes → Digest) (b₁ b₂ : Bucke
   have hperm : (filterModule b₁).Perm (filterModule b₂) :=
     (List.perm_ext_iff_of_nodup (nodup_of_nodup_map _ f1.1) (nodup_of_nodup_map _ f2.1)).mpr hsame
   unfold moduleB4 b4Digest
-  rw [filterModule_idem, filterModule_idem, walkNodes_ok H _ f1.2, walkNodes_ok H _ f2.2]
+  rw [filterModule_idem, filterModule_idem]
+  by_cases n1 : NoNewline (filterModule b₁)
+  case neg =>
+    have n2 : ¬ NoNewline (filterModule b₂) := fun n2 => n1 (fun e he => n2 e ((hsame e).mp he))
+    rw [walkNodes_err_newline H _ f1.2 n1, walkNodes_err_newline H _ f2.2 n2]
+  have n2 : NoNewline (filterModule b₂) := fun e he => n1 e ((hsame e).mpr he)
+  rw [walkNodes_ok H _ (nodePaths_ok f1.2 n1), walkNodes_ok H _ (nodePaths_ok f2.2 n2)]
   simp only []
   cases objectNodes H [yaml, lock] with
   | error e => rfl
@@ -550,13 +647,12 @@ theorem b4_is_function_of_module_files (H : Bytes → Digest) (b₁ b₂ : Bucke
 
 /-- b4 SENSITIVITY, analogous to `digest_sensitive`: a b4 digest covers the module files and the
     v1 buf.yaml / buf.lock object data (`b4Entries`).  If H does not collide on what the two
-    computations hash (`b4Inputs`: the file contents, the object data, the two manifest texts) and
-    no covered path contains U+000A, two successful computations with the same digest cover the
-    same set of (path, content) pairs.  Contrapositive: any changed byte or path of a module
+    computations hash (`b4Inputs`: the file contents, the object data, the two manifest texts),
+    two successful computations with the same digest cover the same set of (path, content) pairs
+    (no line-feed hypothesis: success implies every covered path passed `NewFileNode`).  Contrapositive: any changed byte or path of a module
     file, any changed, added or removed buf.yaml / buf.lock changes the b4 digest. -/
 theorem b4_sensitive (H : Bytes → Digest) (b₁ b₂ : Bucket) (y₁ l₁ y₂ l₂ : Option ObjectData)
     (h1 : BucketOK b₁) (h2 : BucketOK b₂)
-    (n1 : NoNewline (b4Entries b₁ y₁ l₁)) (n2 : NoNewline (b4Entries b₂ y₂ l₂))
     (hH : NoCollision H (b4Inputs H b₁ y₁ l₁ ++ b4Inputs H b₂ y₂ l₂))
     (d : MDigest) (e1 : moduleB4 H b₁ y₁ l₁ = .ok d) (e2 : moduleB4 H b₂ y₂ l₂ = .ok d) :
     ∀ e, e ∈ b4Entries b₁ y₁ l₁ ↔ e ∈ b4Entries b₂ y₂ l₂ := by
@@ -588,15 +684,14 @@ theorem b4_sensitive (H : Bytes → Digest) (b₁ b₂ : Bucket) (y₁ l₁ y₂
     exact congrArg MDigest.digest this
   have htext := utf8_inj (hH _ (in1 _ mT1) _ (in2 _ mT2) hHeq)
   -- step 2: the manifests are equal
-  have nodeProps : ∀ (es : List Entry), (∀ e ∈ es, validateNodePath e.1 = .ok ()) → NoNewline es →
-      ∀ n ∈ sortBy pathLe (nodesOf H es), validateNodePath n.path = .ok () ∧ '\n' ∉ n.path := by
-    intro es hv hn n hm
+  have nodeProps : ∀ (es : List Entry), (∀ e ∈ es, validateNodePath e.1 = .ok ()) →
+      ∀ n ∈ sortBy pathLe (nodesOf H es), validateNodePath n.path = .ok () := by
+    intro es hv n hm
     have hm' := (sortBy_perm pathLe _).subset hm
     rcases List.mem_map.mp hm' with ⟨e, he, rfl⟩
-    exact ⟨hv e he, hn e he⟩
+    exact hv e he
   have hman := manifestString_inj (sortBy_canonical _ nd1) (sortBy_canonical _ nd2)
-    (fun n hn => (nodeProps _ v1 n1 n hn).1) (fun n hn => (nodeProps _ v2 n2 n hn).1)
-    (fun n hn => (nodeProps _ v1 n1 n hn).2) (fun n hn => (nodeProps _ v2 n2 n hn).2) htext
+    (fun n hn => nodeProps _ v1 n hn) (fun n hn => nodeProps _ v2 n hn) htext
   have hnodes : (nodesOf H (b4Entries b₁ y₁ l₁)).Perm (nodesOf H (b4Entries b₂ y₂ l₂)) :=
     (sortBy_perm pathLe _).symm.trans (hman ▸ sortBy_perm pathLe _)
   -- step 3: node sets equal ⇒ entry sets equal
@@ -630,7 +725,10 @@ def exNodes : List FileNode :=
 set_option maxRecDepth 100000 in
 -- hypotheses of manifest_roundtrip are satisfiable by a manifest with double spaces and unicode
 example : WF exNodes := by
-  refine ⟨by decide, ?_, ?_⟩ <;> (intro n hn; simp only [exNodes, List.mem_cons, List.not_mem_nil, or_false] at hn; rcases hn with rfl | rfl | rfl <;> decide)
+  refine ⟨by decide, ?_⟩
+  intro n hn
+  simp only [exNodes, List.mem_cons, List.not_mem_nil, or_false] at hn
+  rcases hn with rfl | rfl | rfl <;> decide
 
 set_option maxRecDepth 100000 in
 /-- The pre-fix parser (`strings.Split(s, "  ")` must give exactly 2 parts) rejects the canonical
@@ -643,13 +741,16 @@ theorem roundtrip_old_counterexample :
   decide
 
 set_option maxRecDepth 100000 in
-/-- The newline hypothesis of `manifest_roundtrip` is forced by the format: `NewFileNode`
-    accepts the path "x\ny.proto", and the canonical text of that manifest does not parse
-    (known finding `manifest-roundtrip-newline-in-path`). -/
+/-- PRE-FIX behaviour (finding `manifest-roundtrip-newline-in-path`, fixed by
+    handoff/C08-newline-fix.diff): the old `NewFileNode` (`newFileNodeOld`) accepted the path
+    "x\ny.proto", and the canonical text of that manifest does not parse — the line format cannot
+    represent a line feed.  The repaired `NewFileNode` rejects the path (last conjunct), which is
+    why `manifest_roundtrip` needs no line-feed hypothesis any more. -/
 theorem roundtrip_newline_counterexample :
-    newFileNode "x\ny.proto".toList zeroDigest = .ok ⟨"x\ny.proto".toList, zeroDigest⟩ ∧
+    newFileNodeOld "x\ny.proto".toList zeroDigest = .ok ⟨"x\ny.proto".toList, zeroDigest⟩ ∧
     newManifest [⟨"x\ny.proto".toList, zeroDigest⟩] = .ok [⟨"x\ny.proto".toList, zeroDigest⟩] ∧
-    parseManifest (manifestString [⟨"x\ny.proto".toList, zeroDigest⟩]) = .error .nodeForm := by
+    parseManifest (manifestString [⟨"x\ny.proto".toList, zeroDigest⟩]) = .error .nodeForm ∧
+    newFileNode "x\ny.proto".toList zeroDigest = .error .pathLineFeed := by
   decide
 
 def exA : Bucket := [("a.proto".toList, [1]), ("x.txt".toList, [9]), ("README.md".toList, [])]
@@ -657,35 +758,56 @@ def exB : Bucket := [("README.md".toList, []), ("a.proto".toList, [2])]
 
 set_option maxRecDepth 1000000 in
 -- hypotheses of digest_sensitive / digest_changes are satisfiable (toy hash, two buckets that
--- differ in one byte of one module file); purity hypotheses likewise
-example : BucketOK exA ∧ BucketOK exB ∧ NoNewline exA ∧ NoNewline exB ∧
+-- differ in one byte of one module file, both computations succeed); purity hypotheses likewise
+example : BucketOK exA ∧ BucketOK exB ∧
     NoCollision toyH (b5Inputs toyH exA [] ++ b5Inputs toyH exB []) ∧
+    (moduleB5 toyH exA []).toBool = true ∧ (moduleB5 toyH exB []).toBool = true ∧
     (∃ e, ¬ (e ∈ filterModule exA ↔ e ∈ filterModule exB)) := by
-  refine ⟨⟨by decide, by decide⟩, ⟨by decide, by decide⟩, by unfold NoNewline; decide,
-    by unfold NoNewline; decide, by unfold NoCollision; decide, ⟨("a.proto".toList, [1]), by decide⟩⟩
+  refine ⟨⟨by decide, by decide⟩, ⟨by decide, by decide⟩, by unfold NoCollision; decide,
+    by decide, by decide, ⟨("a.proto".toList, [1]), by decide⟩⟩
 
 set_option maxRecDepth 1000000 in
 -- the module files of exA: the .proto file and the chosen documentation file, not x.txt
 example : (filterModule exA).map (·.1) = ["a.proto".toList, "README.md".toList] := by decide
 
+def exDep0 : MDigest := ⟨.b5, toyH [6]⟩
 def nlTwo : Bucket := [("x.proto".toList, [1]), ("y.proto".toList, [2])]
 def nlOne : Bucket :=
   [("x.proto".toList ++ '\n' :: digestString (toyH [2]) ++ "  y.proto".toList, [1])]
 
 set_option maxRecDepth 1000000 in
 set_option maxHeartbeats 4000000 in
-/-- The `NoNewline` hypothesis of `digest_sensitive` cannot be dropped: a (validated, `.proto`)
-    path containing U+000A can spell out a second manifest line, so a ONE-file module and a
-    TWO-file module get the same manifest text and the same b5 digest although the hash does
-    not collide on anything they hash (known finding `digest-collision-newline-in-path`; the
-    harness replays the same witness on the implementation with real SHAKE256). -/
+/-- PRE-FIX behaviour (finding `digest-collision-newline-in-path`, fixed by
+    handoff/C08-newline-fix.diff): with the old `NewFileNode` (`Old.moduleB5`) a (validated,
+    `.proto`) path containing U+000A can spell out a second manifest line, so a ONE-file module
+    and a TWO-file module got the same manifest text and the same b5 DIGEST (not a common error)
+    although the hash does not collide on anything they hash.  So before the fix `digest_sensitive`
+    was false without a line-feed hypothesis.  With the repaired `NewFileNode` the one-file module
+    has no digest at all (last conjunct), and the two-file module's digest is unchanged. -/
 theorem newline_collision_counterexample :
     BucketOK nlOne ∧ BucketOK nlTwo ∧ NoNewline nlTwo ∧
-    NoCollision toyH (b5Inputs toyH nlOne [] ++ b5Inputs toyH nlTwo []) ∧
+    NoCollision toyH (Old.b5Inputs toyH nlOne [] ++ Old.b5Inputs toyH nlTwo []) ∧
     (filterModule nlOne).length = 1 ∧ (filterModule nlTwo).length = 2 ∧
-    moduleB5 toyH nlOne [] = moduleB5 toyH nlTwo [] := by
+    Old.moduleB5 toyH nlOne [] = Old.moduleB5 toyH nlTwo [] ∧
+    (Old.moduleB5 toyH nlTwo []).toBool = true ∧
+    moduleB5 toyH nlTwo [] = Old.moduleB5 toyH nlTwo [] ∧
+    moduleB5 toyH nlOne [] = .error .pathLineFeed := by
   refine ⟨⟨by decide, by decide⟩, ⟨by decide, by decide⟩, by unfold NoNewline; decide,
-    by unfold NoCollision; decide, by decide, by decide, by decide⟩
+    by unfold NoCollision; decide, by decide, by decide, by decide, by decide, by decide, by decide⟩
+
+set_option maxRecDepth 1000000 in
+-- the hypotheses of `digest_rejects_line_feed` are satisfiable: a real bucket with a line feed in a
+-- module file's path (and the theorem's conclusion, evaluated)
+example : BucketOK nlOne ∧ (∃ e, e ∈ filterModule nlOne ∧ '\n' ∈ e.1) ∧
+    moduleB5 toyH nlOne [exDep0] = .error .pathLineFeed := by
+  refine ⟨⟨by decide, by decide⟩, ⟨nlOne.head!, by decide, by decide⟩, by decide⟩
+
+set_option maxRecDepth 1000000 in
+-- a line feed in a NON-module file's path is harmless: the digest is that of the module files
+example : BucketOK (("notes\n.txt".toList, [5]) :: exA) ∧
+    (moduleB5 toyH (("notes\n.txt".toList, [5]) :: exA) []).toBool = true ∧
+    moduleB5 toyH (("notes\n.txt".toList, [5]) :: exA) [] = moduleB5 toyH exA [] := by
+  refine ⟨⟨by decide, by decide⟩, by decide, by decide⟩
 
 
 def exDep1 : MDigest := ⟨.b5, toyH [7]⟩
@@ -693,11 +815,11 @@ def exDep2 : MDigest := ⟨.b5, toyH [8]⟩
 
 set_option maxRecDepth 1000000 in
 -- `digest_changes` with NON-EMPTY dependency lists: same bucket, one dependency digest replaced
-example : BucketOK exA ∧ NoNewline exA ∧
-    [exDep1, exDep2].all (fun d => d.type = .b5) = true ∧ [exDep1, exDep1].all (fun d => d.type = .b5) = true ∧
+example : BucketOK exA ∧
+    (moduleB5 toyH exA [exDep1, exDep2]).toBool = true ∧ (moduleB5 toyH exA [exDep1, exDep1]).toBool = true ∧
     NoCollision toyH (b5Inputs toyH exA [exDep1, exDep2] ++ b5Inputs toyH exA [exDep1, exDep1]) ∧
     ¬ [exDep1, exDep2].Perm [exDep1, exDep1] := by
-  refine ⟨⟨by decide, by decide⟩, by unfold NoNewline; decide, by decide, by decide, by unfold NoCollision; decide, ?_⟩
+  refine ⟨⟨by decide, by decide⟩, by decide, by decide, by unfold NoCollision; decide, ?_⟩
   intro hp
   have := hp.count_eq exDep2
   revert this; decide
@@ -753,12 +875,12 @@ private theorem exMs_ok : SetOK exMs := by
 
 set_option maxRecDepth 1000000 in
 set_option maxHeartbeats 4000000 in
-example : exMs[0]? = some exK ∧ exK.isLocal = true ∧ SetOK exMs ∧ BucketOK exK2 ∧ NoNewline (filterModule exK2) ∧
+example : exMs[0]? = some exK ∧ exK.isLocal = true ∧ SetOK exMs ∧ BucketOK exK2 ∧
     (∃ e, ¬ (e ∈ filterModule exK.bucket ↔ e ∈ filterModule exK2)) ∧
     exMs[2]? = some exI ∧ exI.isLocal = true ∧ 0 ∈ exI.deps ∧
     NoCollision toyH ((2 :: exI.deps).flatMap (inputsAt toyH exMs) ++
       (2 :: exI.deps).flatMap (inputsAt toyH (withBucket exMs 0 exK exK2))) := by
-  refine ⟨rfl, rfl, exMs_ok, ⟨by decide, by decide⟩, by unfold NoNewline; decide,
+  refine ⟨rfl, rfl, exMs_ok, ⟨by decide, by decide⟩,
     ⟨("k.proto".toList, [1]), by decide⟩, rfl, rfl, by decide, by unfold NoCollision; decide⟩
 
 def exYaml : Option ObjectData := some ⟨"buf.yaml".toList, [1, 2]⟩
@@ -766,10 +888,10 @@ def exYaml : Option ObjectData := some ⟨"buf.yaml".toList, [1, 2]⟩
 set_option maxRecDepth 1000000 in
 -- the hypotheses of `b4_sensitive` are satisfiable: two different buckets with the same module
 -- files and the same v1 buf.yaml have the same (successful) b4 digest, no collision among what is hashed
-example : BucketOK exA ∧ BucketOK exC ∧ NoNewline (b4Entries exA exYaml none) ∧ NoNewline (b4Entries exC exYaml none) ∧
+example : BucketOK exA ∧ BucketOK exC ∧
     NoCollision toyH (b4Inputs toyH exA exYaml none ++ b4Inputs toyH exC exYaml none) ∧
     (∃ d, moduleB4 toyH exA exYaml none = .ok d ∧ moduleB4 toyH exC exYaml none = .ok d) := by
-  refine ⟨⟨by decide, by decide⟩, ⟨by decide, by decide⟩, by unfold NoNewline; decide, by unfold NoNewline; decide,
+  refine ⟨⟨by decide, by decide⟩, ⟨by decide, by decide⟩,
     by unfold NoCollision; decide, ?_⟩
   have h : moduleB4 toyH exA exYaml none = moduleB4 toyH exC exYaml none :=
     b4_is_function_of_module_files toyH exA exC exYaml none ⟨by decide, by decide⟩ ⟨by decide, by decide⟩ (by
